@@ -529,8 +529,14 @@ impl datafusion_execution::SpillFile for MemSpillFile {
         Some(self.content.lock().len() as u64)
     }
     fn read_stream(&self) -> Result<Pin<Box<dyn Stream<Item = Result<bytes::Bytes>> + Send>>> {
-        let snapshot = bytes::Bytes::from(self.content.lock().clone());
-        Ok(Box::pin(futures::stream::once(async move { Ok(snapshot) })))
+        // like real (asynchronous) file I/O the first poll is `Pending` (with an immediate wake-up),
+        // so the callers' "data not ready yet" paths are exercised; the bytes are those written
+        // when the read actually happens
+        let content = Arc::clone(&self.content);
+        Ok(Box::pin(futures::stream::once(async move {
+            tokio::task::yield_now().await;
+            Ok(bytes::Bytes::from(content.lock().clone()))
+        })))
     }
     fn open_writer(&self) -> Result<Box<dyn datafusion_execution::SpillWriter>> {
         Ok(Box::new(MemSpillWriter { content: Arc::clone(&self.content), stats: Arc::clone(&self.stats), faults: self.faults }))
